@@ -27,6 +27,8 @@ META = dict(E1_META, **{
     'level_note': E1_NOTE + ' A job counts as launched when the (fake) '
                   'jobs-submit command completes.',
     'design_ref': 'DESIGN.md §5 C20',
+    # fork-heavy: forked children do not scale with cores here (§2.4)
+    'shards': 8,
     'budget': {'quick': 150, 'thorough': 1800},
 })
 RULE = ('case = generated workflow + plan x kill point (DB statement index '
